@@ -15,7 +15,22 @@ def optional(info):
 
 
 def prelude(info, cn, nmax):
-    src = '#define VB_NMAX %d\n#include "af_bytes.h"\n#include "blf.h"\nint vb_exc; int vb_caught;\n#include "af_bytes_impl.h"\n#include "vec_bytes.h"\n' % nmax
+    src = '#define VB_NMAX %d\n#include "af_bytes.h"\n#include "blf.h"\nint vb_exc; int vb_caught;\n#include "af_bytes_impl.h"\n#include "vec_bytes.h"\n' % max(nmax, 16)   # capacity >= 16: AbstractFile::skipp(15) builds a 15-byte vector
+    for d in info.deps(cn):
+        if d in STATEFUL: continue
+        src += '#include "%s.c"\n' % d
+    return src
+
+
+def seg_bytes(info, cn, nmax):
+    m = max(16, nmax * 8)
+    for l in info.leaves(cn):
+        if l['kind'] == 'array': m = max(m, classinfo.SIZES[l['elem']] * l['count'])
+    return m
+
+
+def prelude_seg(info, cn, nmax):
+    src = '#define VB_NMAX %d\n#define VB_SEG_BYTES %d\n#include "af_seg.h"\n#include "blf.h"\nint vb_exc; int vb_caught;\n#include "af_seg_impl.h"\n#include "vec_bytes.h"\n' % (nmax, seg_bytes(info, cn, nmax))
     for d in info.deps(cn):
         if d in STATEFUL: continue
         src += '#include "%s.c"\n' % d
